@@ -11,6 +11,8 @@ an assignment or a call of one of these functions therefore breaks a proof oblig
 correspondence does not reach the changed path; comments, log messages, docstrings and assertions may change freely.
 """
 import ast
+import json
+import os
 import zlib
 
 from . import tables, gallina as G
@@ -147,44 +149,85 @@ def _tokens(stmts, depth, out):
             raise tables.TranslatorError('shape: unexpected statement %s' % type(st).__name__)
 
 
-def _find(tree, cls, name):
-    if cls is None:
-        for node in tree.body:
-            if isinstance(node, ast.FunctionDef) and node.name == name:
-                return node
-        raise tables.TranslatorError('shape: module function %s not found' % name)
-    for node in tree.body:
-        if isinstance(node, ast.ClassDef) and node.name == cls:
-            for sub in node.body:
-                if isinstance(sub, ast.FunctionDef) and sub.name == name:
-                    return sub
-            raise tables.TranslatorError('shape: %s.%s not found' % (cls, name))
-    raise tables.TranslatorError('shape: class %s not found' % cls)
+def functions_of(tree):
+    """qualname -> FunctionDef for module-level functions and methods of (nested) classes; first definition wins
+    (property getter before setter)."""
+    out = {}
+
+    def walk(body, prefix):
+        for node in body:
+            if isinstance(node, (ast.FunctionDef, ast.AsyncFunctionDef)):
+                out.setdefault(prefix + node.name, node)
+            elif isinstance(node, ast.ClassDef):
+                walk(node.body, prefix + node.name + '.')
+    walk(tree.body, '')
+    return out
+
+
+PINS_FILE = os.path.join(os.path.dirname(os.path.abspath(__file__)), 'shape_pins.json')
+
+
+def anchor_pins():
+    """property -> [(relpath, qualname)] for C09..C20: the functions overlapping the line ranges named by the property's
+    anchors, computed ONCE on the base commit by tools/mkshape.py and committed (harness/shape_pins.json)."""
+    if not os.path.exists(PINS_FILE):
+        return {}
+    with open(PINS_FILE) as f:
+        return {p: [tuple(k) for k in ks] for p, ks in json.load(f).items()}
+
+
+def prop_keys():
+    """property -> ordered, duplicate-free list of (relpath, qualname)"""
+    out = {}
+    for prop, names in PROP_FUNCS.items():
+        ks = []
+        for n in names:
+            if (SRC, n) not in ks:
+                ks.append((SRC, n))
+        out[prop] = ks
+    for prop, ks in anchor_pins().items():
+        out[prop] = list(ks)
+    return out
 
 
 def all_keys():
     keys = []
     for cls, names in FUNCS.items():
-        keys += ['%s.%s' % (cls, n) for n in names]
-    keys += MODULE_FUNCS
+        keys += [(SRC, '%s.%s' % (cls, n)) for n in names]
+    keys += [(SRC, n) for n in MODULE_FUNCS]
+    for ks in anchor_pins().values():
+        for k in ks:
+            if k not in keys:
+                keys.append(k)
     return keys
 
 
 def ident(key):
-    return key.replace('.', '_').strip('_').lower().replace('__', '_')
+    rel, qual = key
+    mod = rel[len('treadmill/'):] if rel.startswith('treadmill/') else rel
+    mod = mod[:-3] if mod.endswith('.py') else mod
+    mod = mod.replace('/__init__', '_init').replace('/', '_').replace('.', '_')
+    q = qual.replace('.', '_')
+    return ('%s__%s' % (mod, q)).replace('___', '__').lower().strip('_')
 
 
 def shapes():
-    """key -> (list of ints, list of (depth, token text))"""
-    tree = ast.parse(tables._src(SRC))
+    """key -> (list of ints, list of (depth, token text)); a function that no longer exists gets the empty skeleton
+    (only the properties that pin it then fail)"""
+    trees = {}
     out = {}
     for key in all_keys():
-        cls, name = key.split('.') if '.' in key else (None, key)
-        fn = _find(tree, cls, name)
+        rel, qual = key
+        if rel not in trees:
+            trees[rel] = functions_of(ast.parse(tables._src(rel)))
+        fn = trees[rel].get(qual)
+        if fn is None:
+            out[key] = ([], [])
+            continue
         toks = [(0, 'def(%s)' % ', '.join(a.arg for a in fn.args.args))]
         _tokens(fn.body, 1, toks)
         out[key] = ([d * (1 << 32) + (zlib.crc32(t.encode()) & 0xffffffff) for d, t in toks], toks)
-    for prop, keys in PROP_FUNCS.items():
+    for prop, keys in prop_keys().items():
         for k in keys:
             if k not in out:
                 raise tables.TranslatorError('shape: %s lists unknown function %s' % (prop, k))
@@ -193,8 +236,11 @@ def shapes():
 
 def emit(prefix='shape'):
     sh = shapes()
-    lines = ['(* statement skeletons of treadmill/scheduler/__init__.py: one integer per statement = depth * 2^32 + crc32 '
-             'of the normalised statement head *)']
+    lines = ['(* statement skeletons of the pinned functions: one integer per statement = depth * 2^32 + crc32 of the '
+             'normalised statement head *)']
     for key in all_keys():
         lines.append('Definition %s_%s : list Z := %s.' % (prefix, ident(key), G.lst([G.z(v) for v in sh[key][0]])))
     return '\n'.join(lines) + '\n'
+
+
+tables.register('source_shape', emit)
